@@ -7,7 +7,7 @@ export GOFLAGS=-mod=mod GOPROXY=off GOSUMDB=off
 wt=/tmp/verifyseed-$$
 git -C /repo worktree add -q --detach "$wt" HEAD
 trap 'git -C /repo worktree remove --force "$wt" >/dev/null 2>&1 || true' EXIT
-cp "$demo" "$wt/$pkg/$(basename "$demo" | sed 's/\.txt$//')"
+mkdir -p "$wt/$pkg"; cp "$demo" "$wt/$pkg/$(basename "$demo" | sed 's/\.txt$//')"
 cd "$wt"
 base() { go test -vet=off -count=1 ./core/... 2>&1 | grep -E "^(--- FAIL|ok|FAIL)" | grep -v -i seeded | sed -E 's/\(?[0-9.]+s\)?$//' | sort ; }
 echo "[$id] demo without patch:"; if go test -vet=off -count=1 "$@" >/tmp/vs-$$.log 2>&1; then echo "  PASS (as required)"; else echo "  FAIL (unexpected)"; tail -5 /tmp/vs-$$.log; fi
